@@ -57,6 +57,8 @@ class VLoop(asyncio.SelectorEventLoop):
         super().__init__(selectors.SelectSelector())
         self.ms = 0
         self._seqc = itertools.count()
+        self.fin = None          # end of the run: a future resolved once everything up to and including `fin_ms` is done
+        self.fin_ms = 0
 
     def time(self):
         return self.ms / 1000.0
@@ -74,9 +76,18 @@ class VLoop(asyncio.SelectorEventLoop):
         while self._scheduled and self._scheduled[0]._cancelled:
             h = heapq.heappop(self._scheduled)
             h._scheduled = False
-        if not self._ready and self._scheduled:
-            ms = int(round(self._scheduled[0]._when * 1000.0))
-            if ms > self.ms:
+        if not self._ready:
+            ms = int(round(self._scheduled[0]._when * 1000.0)) if self._scheduled else None
+            if self.fin is not None and not self.fin.done() and (ms is None or ms > self.fin_ms):
+                # the run is over: every instant up to the horizon is finished and NOTHING is ready. The harness's
+                # own coroutine resumes here, at a quiet point — its final read-out and its clean-up `stop()` are not
+                # stimuli of the test and must not share an instant with a wake-up of the interpreter (a `stop()`
+                # that lands in the instant in which a slow action of the macrostep in flight ends lets the rest of
+                # that macrostep run behind `cancel_all()`; agendas that do that on purpose carry a `stop` input)
+                if self.fin_ms > self.ms:
+                    self.ms = self.fin_ms
+                self.fin.set_result(None)
+            elif ms is not None and ms > self.ms:
                 self.ms = ms
         super()._run_once()
 
@@ -293,7 +304,7 @@ async def _run_async(case, out):
     for op in case["agenda"]:
         loop.call_at(op[0] / 1000.0, do_op, op)
     fin = loop.create_future()
-    loop.call_at(case["horizon"] / 1000.0 + 0.0005, lambda: fin.done() or fin.set_result(None))
+    loop.fin, loop.fin_ms = fin, int(case["horizon"])     # resolved by the loop when the horizon's instant is over
     try:
         await it.start()
     except XStateMachineError as x:
@@ -306,6 +317,7 @@ async def _run_async(case, out):
     out["queue"] = it._event_queue.qsize()
     out["error"] = type(it.error).__name__ if getattr(it, "error", None) is not None else ""
     out["flavor"] = "async"
+    out["in_flight"] = bool(it._processing)       # the run ended while the run loop was suspended inside a macrostep
     for t in pending_stops:
         await t
     await it.stop()
@@ -364,7 +376,7 @@ class VSched:
         self.ctl.acquire()
         self.current = prev
 
-    def _ready(self):
+    def _ready(self, before=None):
         out = []
         for vt in self.threads:
             if vt.done or not vt.started:
@@ -375,14 +387,15 @@ class VSched:
                 ev, deadline, pseq = vt.blocked
                 if ev is not None and ev.flag:
                     out.append((1, pseq, vt))
-                elif deadline is not None and deadline <= self.ms:
+                elif deadline is not None and deadline <= self.ms and (before is None or (deadline, pseq) < before):
                     out.append((2, (deadline, pseq), vt))
         # new threads first (they only go to sleep), then the due sleepers in (deadline, park order)
         return sorted(out, key=_ready_key)
 
-    def run_ready(self):
+    def run_ready(self, before=None):
+        """`before` = (deadline, park order) of a sleeping controller: only sleepers that wake strictly before it run"""
         while not self.dead:
-            r = self._ready()
+            r = self._ready(before)
             if not r:
                 return
             self._resume(r[0][2])
@@ -411,7 +424,9 @@ class VSched:
                 raise RuntimeError("controller would block forever")
             mine = next(self.pseq)
             while True:
-                self.run_ready()
+                # (a sleeper with the controller's own deadline that went to sleep AFTER it must not run yet, even when
+                #  another one with that deadline, which went to sleep before it, is due: (deadline, park order) is the order)
+                self.run_ready((deadline, mine))
                 if ev is not None and ev.flag:
                     return
                 d = self.next_deadline()
@@ -595,6 +610,7 @@ def run_sync(case):
         out["X"] = 0
         out["queue"] = len(it._event_queue)
         out["error"] = type(it.error).__name__ if getattr(it, "error", None) is not None else ""
+        out["in_flight"] = bool(getattr(it, "_is_processing", False))
         it.stop()
         sched.run_ready()
         # timer threads still WAITING after stop() (one that is in the middle of delivering its expiry when the run
@@ -726,6 +742,10 @@ SERVICES = {
     "plainBad": {"coro": False, "dur": 0, "ok": False},
 }
 DELAYS = {"D1": 100, "D2": 300}       # "DX" is deliberately not defined
+# the same-instant family ("instant" profiles): everything takes 100 ms (or a multiple), so that expiries,
+# completions, the end of slow actions, task starts and external inputs coincide at one instant of the virtual clock
+INST_SERVICES = dict(SERVICES, svcBadFast={"coro": True, "dur": 100, "ok": False})
+INST_SRC = ["svcFast", "svcFast", "svcFast", "svcBadFast", "svcOk", "svcBad", "plainOk", "plainOk", "plainBad"]
 
 
 def _after_block(rng, sid, names, key, opts):
@@ -733,6 +753,8 @@ def _after_block(rng, sid, names, key, opts):
     out = {}
     nkeys = rng.choice([1, 1, 1, 2, 2, 3])
     pool = ["100", "200", "300", "400"] + (["D1", "D2", "DX"] if opts.get("named", True) else [])
+    if opts.get("instant"):
+        pool = ["100", "D1", "200"]           # "100" and "D1" are two timers with the same deadline
     keys = rng.sample(pool, nkeys)
     slot = 0
     for k in keys:
@@ -763,7 +785,8 @@ def _invoke_block(rng, key, names, opts):
     out = []
     for j in range(n):
         iid = f"i{key}{j}"
-        inv = {"src": rng.choice(list(SERVICES) if opts.get("plain", True) else ["svcOk", "svcBad", "svcFast", "svcLong"])}
+        inv = {"src": rng.choice(INST_SRC if opts.get("instant") else
+                                 list(SERVICES) if opts.get("plain", True) else ["svcOk", "svcBad", "svcFast", "svcLong"])}
         if rng.random() < 0.8:
             inv["id"] = iid
         elif j > 0:
@@ -837,7 +860,7 @@ def gen_machine(rng, opts):
     m = {"id": "m", "initial": names[0], "states": states}
     root_on = {}
     if opts.get("slow"):
-        root_on["X"] = {"actions": [f"async:sleep:{rng.choice([100, 150, 250])}", "t:root:X"]}
+        root_on["X"] = {"actions": [f"async:sleep:{rng.choice([100, 100, 200] if opts.get('instant') else [100, 150, 250])}", "t:root:X"]}
     if rng.random() < 0.3:
         root_on["E1"] = {"target": "." + rng.choice(names), "actions": ["t:root:E1"]}
     if root_on:
@@ -848,6 +871,214 @@ def gen_machine(rng, opts):
     return m
 
 
+def gen_par_machine(rng, opts):
+    """The same-instant family proper. A PARALLEL root whose regions are independent little machines on the 100 ms grid: at
+    one instant a timer of one region expires while a service of another completes, the slow action that kept the run loop
+    busy ends, an external input arrives and the service task of a state entered in that very instant has not had its first
+    step yet — in every combination the seeds reach. Region states (compound) sometimes own timers / services themselves, so
+    that tasks of an ancestor that stays active coincide with those of the children that come and go."""
+    nreg = rng.choice([2, 2, 3])
+    regions = {}
+    slow = opts.get("slow")
+
+    def tasks(st, key, sibs, top):
+        if rng.random() < opts.get("p_after", 0.7) * (0.5 if top else 1.0):
+            out = {}
+            slot = 0
+            for k in rng.sample(["100", "D1", "200"], rng.choice([1, 1, 2])):
+                t = {"actions": [f"af:{key}:{slot}"]}
+                slot += 1
+                r = rng.random()
+                if r < 0.55:
+                    t["target"] = rng.choice(sibs)
+                elif r < 0.7 and not top:
+                    t["target"] = key.split("_")[-1]
+                    t["reenter"] = True
+                if rng.random() < 0.15:
+                    t["guard"] = rng.choice(["g0", "g1"])
+                if slow and rng.random() < 0.1:
+                    t["actions"] = ["async:sleep:100"] + t["actions"]
+                out[k] = t
+            st["after"] = out
+        if rng.random() < opts.get("p_invoke", 0.0) * (0.5 if top else 1.0):
+            invs = []
+            for j in range(rng.choice([1, 1, 2])):
+                src = rng.choice(INST_SRC)
+                inv = {"id": f"i{key}{j}", "src": src}
+                plain = src.startswith("plain")
+                od = {"actions": [f"od:{key}:{j}"]}
+                if rng.random() < (0.15 if plain else 0.6):
+                    od["target"] = rng.choice(sibs)
+                inv["onDone"] = od
+                if rng.random() < 0.7:
+                    oe = {"actions": [f"oe:{key}:{j}"]}
+                    if rng.random() < (0.15 if plain else 0.5):
+                        oe["target"] = rng.choice(sibs)
+                    inv["onError"] = oe
+                invs.append(inv)
+            st["invoke"] = invs if len(invs) > 1 or rng.random() < 0.3 else invs[0]
+
+    for r in range(nreg):
+        rn = "abc"[r]
+        names = [f"{rn}{k}" for k in range(rng.choice([2, 2, 3]))]
+        states = {}
+        for nm in names:
+            key = f"{rn}_{nm}"
+            st = {"entry": [f"en:{key}"], "exit": [f"ex:{key}"]}
+            on = {}
+            for ev in EVENTS[:3]:
+                if rng.random() < 0.35:
+                    on[ev] = {"target": rng.choice(names), "actions": [f"t:{key}:{ev}"]}
+            if rng.random() < 0.3:
+                on["R"] = {"target": nm, "reenter": True, "actions": [f"t:{key}:R"]}
+            st["on"] = on
+            tasks(st, key, names, False)
+            if slow and rng.random() < 0.12:
+                st["exit"] = ["async:sleep:100"] + st["exit"]
+            if slow and rng.random() < 0.1:
+                st["entry"] = ["async:sleep:100"] + st["entry"]
+            states[nm] = st
+        reg = {"initial": names[0], "entry": [f"en:{rn}"], "exit": [f"ex:{rn}"], "states": states, "on": {}}
+        if rng.random() < 0.35:
+            tasks(reg, rn, [f"#m.{rn}.{n}" for n in names], True)
+        regions[rn] = reg
+    m = {"id": "m", "type": "parallel", "states": regions}
+    if slow:
+        m["on"] = {"X": {"actions": [f"async:sleep:{rng.choice([100, 100, 200])}", "t:root:X"]}}
+    return m
+
+
+def gen_deep_machine(rng, opts):
+    """Random machines whose COMPOSITE states (compound / parallel) own timers and services THEMSELVES and are entered in every
+    way the engines distinguish: by their own id (default descent), through a descendant named directly from OUTSIDE — absolute
+    (`#m.w.b`) and relative (`w.b`) spellings, two levels deep when a child is compound itself —, through a history child, and
+    re-entered from INSIDE through a deep target with / without `reenter`. (A composite state that sits on the explicit entry
+    path together with one of its children takes another branch of `_enter_states` than one entered by default descent.)"""
+    tops = [f"s{i}" for i in range(rng.choice([2, 2, 3]))]
+    comps = ["w"] + (["v"] if rng.random() < 0.35 else [])
+    slow = opts.get("slow")
+    p_after, p_invoke = opts.get("p_after", 0.7), opts.get("p_invoke", 0.0)
+    layout = {}                      # composite -> {"type", "kids": {kid: [grandkids]}, "hist": {path-suffix: kind}}
+    for c in comps:
+        typ = "parallel" if rng.random() < 0.35 else "compound"
+        kids = {}
+        for k in ("a", "b"):
+            kids[k] = ["x", "y"] if rng.random() < (0.6 if typ == "parallel" else 0.3) else []
+        hist = {}
+        if typ == "compound" and rng.random() < 0.6:
+            hist["h"] = rng.choice(["shallow", "deep"])
+        for k, gk in kids.items():
+            if gk and rng.random() < 0.4:
+                hist[f"{k}.h"] = rng.choice(["shallow", "deep"])
+        layout[c] = {"type": typ, "kids": kids, "hist": hist}
+
+    def ways_in(c):
+        """every spelling of a target that enters composite `c` from outside"""
+        L = layout[c]
+        out = [c, c]
+        for k, gk in L["kids"].items():
+            out += [f"#m.{c}.{k}", f"{c}.{k}"]
+            for g in gk:
+                out += [f"#m.{c}.{k}.{g}", f"{c}.{k}.{g}"]
+        for hp in L["hist"]:
+            out += [f"#m.{c}.{hp}", f"{c}.{hp}"]
+        return out
+
+    def outside_target(abs_only=False):
+        # (relative spellings resolve against the SOURCE state's parent: only sources at the top level use them)
+        if rng.random() < 0.6:
+            return rng.choice([w for w in ways_in(rng.choice(comps)) if not abs_only or w.startswith("#")])
+        return rng.choice(tops + comps)
+
+    def mk_state(key, sid, target_pool, p_a, p_i):
+        st = {"entry": [f"en:{key}"], "exit": [f"ex:{key}"], "on": {}}
+        if rng.random() < p_a:
+            st["after"] = _after_block(rng, sid, target_pool, key, opts)
+        if rng.random() < p_i:
+            st["invoke"] = _invoke_block(rng, key, target_pool, opts)
+        if slow and rng.random() < 0.1:
+            st["exit"] = ["async:sleep:100"] + st["exit"]
+        if slow and rng.random() < 0.08:
+            st["entry"] = ["async:sleep:100"] + st["entry"]
+        return st
+
+    states = {}
+    for nm in tops:
+        pool = [outside_target() for _ in range(4)]
+        st = mk_state(nm, "m." + nm, pool, p_after * 0.6, p_invoke * 0.5)
+        for ev in EVENTS[:3]:
+            if rng.random() < 0.6:
+                t = {"target": outside_target(), "actions": [f"t:{nm}:{ev}"]}
+                if rng.random() < 0.15:
+                    t["guard"] = rng.choice(["g0", "g1"])
+                st["on"][ev] = t
+        states[nm] = st
+    for c in comps:
+        L = layout[c]
+        # the composite state's OWN tasks: the point of the family
+        st = mk_state(c, "m." + c, [outside_target() for _ in range(3)] + tops, max(p_after, 0.85) if p_after else 0.0, max(p_invoke, 0.85) if p_invoke else 0.0)
+        inside = [f"#m.{c}.{k}" for k in L["kids"]] + [f"#m.{c}.{k}.{g}" for k, gk in L["kids"].items() for g in gk]
+        for ev in EVENTS[:2]:
+            if rng.random() < 0.5:
+                # handled at the composite state's own level: leave it, or re-enter it through a deep target
+                if rng.random() < 0.5:
+                    t = {"target": rng.choice(tops), "actions": [f"t:{c}:{ev}"]}
+                else:
+                    t = {"target": rng.choice(inside), "actions": [f"t:{c}:{ev}"]}
+                    if rng.random() < 0.5:
+                        t["reenter"] = rng.random() < 0.7
+                st["on"][ev] = t
+        if rng.random() < 0.5:
+            st["on"]["R"] = {"target": c, "reenter": True, "actions": [f"t:{c}:R"]}
+        kids = {}
+        for k, gk in L["kids"].items():
+            key = f"{c}_{k}"
+            sibs = [x for x in L["kids"] if x != k] or [k]
+            pool = [rng.choice(sibs), f"#m.{c}.{rng.choice(sibs)}", f"#m.{c}", rng.choice(tops)] if L["type"] == "compound" else \
+                   [f"#m.{c}", rng.choice(tops), outside_target(True)]
+            ks = mk_state(key, f"m.{c}.{k}", pool, p_after * 0.6, p_invoke * 0.5)
+            if rng.random() < 0.7:
+                t = {"target": rng.choice(pool), "actions": [f"t:{key}:E2"]}
+                if t["target"].startswith("#") and rng.random() < 0.5:
+                    t["reenter"] = rng.random() < 0.6           # deep target from inside, with / without `reenter`
+                ks["on"]["E2"] = t
+            if gk:
+                gks = {}
+                for g in gk:
+                    gkey = f"{key}_{g}"
+                    other = [x for x in gk if x != g][0]
+                    gpool = [other, f"#m.{c}.{k}.{other}", f"#m.{c}.{k}", f"#m.{c}"]
+                    gs = mk_state(gkey, f"m.{c}.{k}.{g}", gpool, p_after * 0.4, p_invoke * 0.3)
+                    if rng.random() < 0.6:
+                        t = {"target": rng.choice(gpool), "actions": [f"t:{gkey}:E0"]}
+                        if t["target"].startswith("#") and rng.random() < 0.5:
+                            t["reenter"] = rng.random() < 0.6
+                        gs["on"]["E0"] = t
+                    gks[g] = gs
+                if f"{k}.h" in L["hist"]:
+                    gks["h"] = {"type": "history", "history": L["hist"][f"{k}.h"]}
+                ks["initial"] = gk[0]
+                ks["states"] = gks
+            kids[k] = ks
+        if "h" in L["hist"]:
+            kids["h"] = {"type": "history", "history": L["hist"]["h"]}
+        st["states"] = kids
+        if L["type"] == "parallel":
+            st["type"] = "parallel"
+        else:
+            st["initial"] = "a"
+        states[c] = st
+    m = {"id": "m", "initial": rng.choice(tops + comps[:1]), "states": states}
+    root_on = {}
+    if slow:
+        root_on["X"] = {"actions": [f"async:sleep:{rng.choice([100, 150, 250])}", "t:root:X"]}
+    if rng.random() < 0.4:
+        root_on["E1"] = {"target": "." + rng.choice(tops + comps), "actions": ["t:root:E1"]}
+    if root_on:
+        m["on"] = root_on
+    return m
+
+
 def gen_agenda(rng, opts):
     nops = rng.choice([2, 3, 4, 5, 6])
     res = sorted(rng.sample(range(1, 100), nops))
@@ -855,6 +1086,9 @@ def gen_agenda(rng, opts):
         # exact ties with engine deadlines: residues 0 or a repeated residue
         res = [0 if rng.random() < 0.5 else r for r in res]
         res = sorted(res)
+    if opts.get("instant"):
+        # most inputs arrive exactly on the 100 ms grid on which everything else happens
+        res = sorted(0 if rng.random() < 0.75 else r for r in res)
     agenda = []
     tick = 0
     evs = EVENTS + (["X"] if opts.get("slow") else [])
@@ -886,13 +1120,32 @@ PROFILES = {
     "svc": {"p_after": 0.4, "p_invoke": 0.7, "plain": True, "alts": False},
     "svcslow": {"p_after": 0.4, "p_invoke": 0.7, "plain": True, "slow": True, "alts": False},
     "svcstop": {"p_after": 0.3, "p_invoke": 0.7, "plain": True, "stop": True, "final": True, "alts": False},
+    # the same-instant family: all delays / durations / slow actions are 100 ms (some 200), inputs on the 100 ms grid
+    "inst": {"p_after": 0.9, "slow": True, "alts": False, "instant": True},                       # C08: timers only
+    "instalts": {"p_after": 0.9, "slow": True, "alts": True, "instant": True},
+    "inststop": {"p_after": 0.9, "alts": False, "instant": True, "stop": True, "final": True},
+    "isvc": {"p_after": 0.6, "p_invoke": 0.8, "alts": False, "instant": True},                     # C09: + services
+    "isvcslow": {"p_after": 0.6, "p_invoke": 0.8, "slow": True, "alts": False, "instant": True},
+    "isvcstop": {"p_after": 0.5, "p_invoke": 0.8, "alts": False, "instant": True, "stop": True, "final": True},
+    # composite states with their OWN timers / services, entered in every way (`gen_deep_machine`)
+    "deep": {"p_after": 0.8, "alts": False, "deep": True},
+    "deepslow": {"p_after": 0.8, "alts": False, "deep": True, "slow": True},
+    "svcdeep": {"p_after": 0.4, "p_invoke": 0.7, "plain": True, "alts": False, "deep": True},
+    "svcdeepslow": {"p_after": 0.4, "p_invoke": 0.7, "plain": True, "alts": False, "deep": True, "slow": True},
+    # ... on parallel regions (`gen_par_machine`): independent tasks that coincide
+    "part": {"p_after": 0.9, "instant": True, "par": True},                                        # C08: timers only
+    "partslow": {"p_after": 0.9, "slow": True, "instant": True, "par": True},
+    "partstop": {"p_after": 0.9, "instant": True, "par": True, "stop": True},
+    "par": {"p_after": 0.6, "p_invoke": 0.8, "instant": True, "par": True},                        # C09: + services
+    "parslow": {"p_after": 0.6, "p_invoke": 0.8, "slow": True, "instant": True, "par": True},
+    "parstop": {"p_after": 0.6, "p_invoke": 0.8, "instant": True, "par": True, "stop": True},
 }
 
 
 def _syncify(m):
     """the sync engine refuses coroutines: slow actions block (`sleep:<ms>`), services are plain callables"""
     txt = json.dumps(m).replace('"async:sleep:', '"sleep:')
-    for a, b in (("svcOk", "plainOk"), ("svcFast", "plainOk"), ("svcLong", "plainOk"), ("svcBad", "plainBad")):
+    for a, b in (("svcOk", "plainOk"), ("svcFast", "plainOk"), ("svcLong", "plainOk"), ("svcBadFast", "plainBad"), ("svcBad", "plainBad")):
         txt = txt.replace(f'"src": "{a}"', f'"src": "{b}"')
     return json.loads(txt)
 
@@ -902,7 +1155,7 @@ def gen_case(seed, profile, i, flavor="async"):
     opts = dict(PROFILES[profile])
     if flavor == "sync":
         opts["all_plain"] = True        # every service of the sync engine is instantaneous
-    m = gen_machine(rng, opts)
+    m = gen_par_machine(rng, opts) if opts.get("par") else gen_deep_machine(rng, opts) if opts.get("deep") else gen_machine(rng, opts)
     if flavor == "sync":
         m = _syncify(m)
         if opts.get("p_invoke"):
@@ -910,7 +1163,7 @@ def gen_case(seed, profile, i, flavor="async"):
     agenda, horizon = gen_agenda(rng, opts)
     guards = {g: rng.choice(["t", "t", "f", "r"]) for g in ("g0", "g1", "g2")}
     return {"id": f"{profile}-{seed}-{i}", "machine": m, "guards": guards,
-            "logic": {"delays": dict(DELAYS), "services": copy.deepcopy(SERVICES)},
+            "logic": {"delays": dict(DELAYS), "services": copy.deepcopy(INST_SERVICES if opts.get("instant") else SERVICES)},
             "agenda": agenda, "horizon": horizon, "profile": profile}
 
 
@@ -956,7 +1209,7 @@ class Timeline:
     markers are undone — an exited state stays in its activation (which is flagged `rollbacks`), an
     entered one never had that activation."""
 
-    def __init__(self, case, log):
+    def __init__(self, case, log, in_flight=False):
         self.info = static_info(case)
         self.key2sid = {v["key"]: sid for sid, v in self.info.items() if v["key"]}
         self.log = log
@@ -1009,7 +1262,10 @@ class Timeline:
                         pending.append(("ex", sid, a))
             if not r.startswith(("send:", "obs:", "svc-")):
                 last_t = t
-        settle(False, last_t)
+        # the log ends with a transition that has no `#t`: it failed and was rolled back — unless the run simply ended
+        # while the interpreter was suspended INSIDE that macrostep (`in_flight`: a slow action): then it is unfinished,
+        # not undone, and what it has entered so far is active
+        settle(bool(in_flight), last_t)
 
     def activation_at(self, sid, pos):
         """index of the activation of `sid` that is current at log position `pos` (None: not active)"""
@@ -1061,7 +1317,7 @@ def _pair_sends(log, typ):
 def monitor_c08(case, out):
     """problems of one implementation run w.r.t. C08; each has kind / detail and the facts a classifier needs"""
     log = out["log"]
-    tl = Timeline(case, log)
+    tl = Timeline(case, log, out.get("in_flight"))
     gv = case.get("guards", {})
     probs = []
     slow = has_slow(case)
@@ -1167,7 +1423,7 @@ def monitor_c08(case, out):
 
 def monitor_c09(case, out):
     log = out["log"]
-    tl = Timeline(case, log)
+    tl = Timeline(case, log, out.get("in_flight"))
     probs = []
     inv_owner = {}
     for sid, inf in tl.info.items():
@@ -1205,6 +1461,8 @@ def monitor_c09(case, out):
             if (lived or sync_flavor) and per_act[k] == 0 and case["logic"]["services"].get(iv["src"]) is not None:
                 if out.get("S") == "HANG" or any(r.startswith("#aerr") for _t, r in log):
                     continue
+                if out.get("in_flight") and ep > max([p for p, (_t, r) in enumerate(log) if r.startswith("#recv:")] or [-1]):
+                    continue            # entered by the macrostep that was still in flight when the run ended: its schedule step had not come yet
                 probs.append({"kind": "service-not-started", "detail": f"{iid}: activation #{k} of {sid} (t={et}) never started its service", "id": iid})
         # completions. Every service call has a serial number that travels with its result (`svc_ends`: where the
         # call ended; `datalog`: which serial each handler run saw, in the order of the handler markers).
@@ -1480,7 +1738,7 @@ def explore(prop, flavor, cases, monitors):
         if d is not None and not mout.get("clean", True):
             # a rollback re-arms the restored states in SET-ITERATION order (unspecified): after the first rollback
             # the order of equal deadlines is not determined by the inputs — compare up to that point only
-            rb = Timeline(c, iout["log"]).rollbacks
+            rb = Timeline(c, iout["log"], iout.get("in_flight")).rollbacks
             if rb:
                 d = diff_run(iout, mout, min(rb[0] - 1, c["horizon"] - CUT))
                 if d is not None and d.get("at") == "final":
@@ -1525,49 +1783,62 @@ SIZES = {"quick": 1, "thorough": 8}
 SIZES9 = {"quick": 1, "thorough": 6}
 
 
+def _explore_plan(prop, flavor, plan, k, seed, monitors, pinned=()):
+    """all profiles of a plan in ONE pooled exploration (a run that hangs — a zero-time loop of the machine itself — costs its
+    worker a whole watchdog period: pooled, those periods overlap instead of adding up profile after profile)"""
+    cases = []
+    for prof, n in plan:
+        cases += [gen_case(seed, prof, i, flavor) for i in range(n * k)]
+        cases += [gen_case(s_, p_, i_, flavor) for (s_, p_, i_) in pinned if p_ == prof and not (s_ == seed and i_ < n * k)]
+    return explore(prop, flavor, cases, monitors)
+
+
 def c08_sync(tier, seed):
     """the same machines on the sync engine, timer threads on the deterministic shim"""
     k = SIZES[tier]
-    plan = [("after1", 100), ("after", 100), ("slow", 150), ("slowalts", 80), ("ties", 100), ("stop", 80), ("rollback", 60)]
-    tot = [0, 0, [], [], [], collections.Counter()]
-    for prof, n in plan:
-        cases = [gen_case(seed, prof, i, "sync") for i in range(n * k)]
-        ev, nt, ties, fails, samples, hist = explore("C08", "sync", cases, [monitor_c08])
-        tot[0] += ev; tot[1] += nt; tot[2] += ties; tot[3] += fails; tot[4] += samples; tot[5].update(hist)
+    plan = [("after1", 100), ("after", 100), ("slow", 150), ("slowalts", 80), ("ties", 100), ("stop", 80), ("rollback", 60),
+            # composite states that own timers, entered through deep targets / history children (`gen_deep_machine`)
+            ("deep", 120), ("deepslow", 60)]
+    tot = _explore_plan("C08", "sync", plan, k, seed, [monitor_c08])
     return _result("SyncInterpreter with timer threads on a deterministic virtual-clock shim vs runtime model: profiles " + ",".join(p for p, _ in plan), *tot)
 
 
 def c09_sync(tier, seed):
     k = SIZES9[tier]
-    plan = [("svc", 200), ("svcslow", 200), ("svcstop", 100)]
-    tot = [0, 0, [], [], [], collections.Counter()]
-    for prof, n in plan:
-        cases = [gen_case(seed, prof, i, "sync") for i in range(n * k)]
-        ev, nt, ties, fails, samples, hist = explore("C09", "sync", cases, [monitor_c09, monitor_c08])
-        tot[0] += ev; tot[1] += nt; tot[2] += ties; tot[3] += fails; tot[4] += samples; tot[5].update(hist)
+    plan = [("svc", 200), ("svcslow", 200), ("svcstop", 100),
+            # composite states that own services, entered through deep targets / history children (`gen_deep_machine`)
+            ("svcdeep", 150), ("svcdeepslow", 80)]
+    tot = _explore_plan("C09", "sync", plan, k, seed, [monitor_c09, monitor_c08])
     return _result("SyncInterpreter with invoked plain services (run inside the entry) vs runtime model: profiles " + ",".join(p for p, _ in plan), *tot)
 
 
 def c08_async(tier, seed):
     """random machines with `after` x agendas, async engine on the virtual loop: model tie + C08 monitor"""
     k = SIZES[tier]
-    plan = [("after1", 150), ("after", 150), ("slow", 220), ("slowalts", 120), ("ties", 150), ("stop", 120), ("rollback", 100)]
-    tot = [0, 0, [], [], [], collections.Counter()]
-    for prof, n in plan:
-        cases = [gen_case(seed, prof, i) for i in range(n * k)]
-        ev, nt, ties, fails, samples, hist = explore("C08", "async", cases, [monitor_c08])
-        tot[0] += ev; tot[1] += nt; tot[2] += ties; tot[3] += fails; tot[4] += samples; tot[5].update(hist)
+    plan = [("after1", 150), ("after", 150), ("slow", 220), ("slowalts", 120), ("ties", 150), ("stop", 120), ("rollback", 100),
+            # the same-instant family (everything on one 100 ms grid; `part*`: independent parallel regions)
+            ("inst", 100), ("instalts", 60), ("inststop", 60), ("part", 120), ("partslow", 120), ("partstop", 60),
+            # composite states that own timers, entered through deep targets / history children (`gen_deep_machine`)
+            ("deep", 120), ("deepslow", 80)]
+    tot = _explore_plan("C08", "async", plan, k, seed, [monitor_c08])
     return _result("async Interpreter on a virtual clock vs runtime model: profiles " + ",".join(p for p, _ in plan), *tot)
+
+
+# cases that once exposed an error of the tie itself (not of the library): re-run with every seed
+#   svcslow-7-163: at t=500 a 100 ms service becomes due in the instant in which a state with a plain service is entered; the
+#   model used to call the new service BEFORE delivering the completion that was already in asyncio's ready queue
+PINNED9 = [(7, "svcslow", 163)]
 
 
 def c09_async(tier, seed):
     k = SIZES9[tier]
-    plan = [("svc", 300), ("svcslow", 300), ("svcstop", 200)]
-    tot = [0, 0, [], [], [], collections.Counter()]
-    for prof, n in plan:
-        cases = [gen_case(seed, prof, i) for i in range(n * k)]
-        ev, nt, ties, fails, samples, hist = explore("C09", "async", cases, [monitor_c09, monitor_c08])
-        tot[0] += ev; tot[1] += nt; tot[2] += ties; tot[3] += fails; tot[4] += samples; tot[5].update(hist)
+    plan = [("svc", 300), ("svcslow", 300), ("svcstop", 200),
+            # the same-instant family: expiries, completions, ends of slow actions, inputs and the first steps of freshly
+            # created service tasks coincide (`par*`: on independent parallel regions)
+            ("isvc", 80), ("isvcslow", 80), ("isvcstop", 40), ("par", 120), ("parslow", 120), ("parstop", 60),
+            # composite states that own services, entered through deep targets / history children (`gen_deep_machine`)
+            ("svcdeep", 120), ("svcdeepslow", 80)]
+    tot = _explore_plan("C09", "async", plan, k, seed, [monitor_c09, monitor_c08], PINNED9)
     return _result("async Interpreter with invoked services (coroutines with completion times, plain callables, return/raise) vs runtime model: profiles "
                    + ",".join(p for p, _ in plan), *tot)
 
@@ -1622,6 +1893,267 @@ def c08_placements(tier, seed):
     ev, nt, ties, fails, samples, hist = explore("C08", "async", cases, [monitor_c08, monitor_c09])
     return _result(f"ALL agendas of <= {2 if tier == 'quick' else 3} inputs from R/E/X(slow)/B/stop at {PLACE_TIMES} ms around the deadlines 100/200 ms, 3 machines (timer, two timers, service), async",
                    ev, nt, ties, fails, samples, hist, exhaustive=True)
+
+
+# exhaustive same-instant scenarios --------------------------------------------------------------------------------
+def _inst_region(rn, kind):
+    """one region of a same-instant machine: a little cycle in which something happens every 100 ms (`kind`)"""
+    a0, a1 = f"{rn}0", f"{rn}1"
+    k0, k1 = f"{rn}_{a0}", f"{rn}_{a1}"
+
+    def st(key, **kw):
+        d = {"entry": [f"en:{key}"], "exit": [f"ex:{key}"], "on": {}}
+        d.update(kw)
+        return d
+    back = {"after": {"100": {"target": a0, "actions": [f"af:{k1}:0"]}}}
+    if kind == "Tcyc":       # a timer that re-arms itself: an expiry every 100 ms
+        S = {a0: st(k0, after={"100": {"target": a0, "reenter": True, "actions": [f"af:{k0}:0"]}})}
+    elif kind == "T2":       # two timers of one state with the same deadline ("100" and the named delay D1 = 100)
+        S = {a0: st(k0, after={"100": {"actions": [f"af:{k0}:0"]}, "D1": {"target": a1, "actions": [f"af:{k0}:1"]}}), a1: st(k1, **back)}
+    elif kind == "Tnp":      # an expiry enters a state whose service is a plain callable (the task starts in that instant)
+        S = {a0: st(k0, after={"100": {"target": a1, "actions": [f"af:{k0}:0"]}}),
+             a1: st(k1, invoke={"id": f"i{k1}0", "src": "plainOk", "onDone": {"actions": [f"od:{k1}:0"]}}, **back)}
+    elif kind == "Tnc":      # an expiry enters a state whose service takes 100 ms and leads back
+        S = {a0: st(k0, after={"100": {"target": a1, "actions": [f"af:{k0}:0"]}}),
+             a1: st(k1, invoke={"id": f"i{k1}0", "src": "svcFast", "onDone": {"target": a0, "actions": [f"od:{k1}:0"]}})}
+    elif kind == "Scyc":     # a 100 ms service that is restarted by its own completion
+        S = {a0: st(k0, invoke={"id": f"i{k0}0", "src": "svcFast", "onDone": {"target": a0, "reenter": True, "actions": [f"od:{k0}:0"]}})}
+    elif kind == "Sbad":     # a 100 ms service that raises (handled), then a timer leads back
+        S = {a0: st(k0, invoke={"id": f"i{k0}0", "src": "svcBadFast", "onDone": {"actions": [f"od:{k0}:0"]},
+                               "onError": {"target": a1, "actions": [f"oe:{k0}:0"]}}), a1: st(k1, **back)}
+    elif kind == "Ep":       # an input enters a state with a plain service
+        S = {a0: st(k0), a1: st(k1, invoke={"id": f"i{k1}0", "src": "plainOk", "onDone": {"actions": [f"od:{k1}:0"]}})}
+        S[a0]["on"]["E"] = {"target": a1, "actions": [f"t:{k0}:E"]}
+        S[a1]["on"]["E"] = {"target": a0, "actions": [f"t:{k1}:E"]}
+    elif kind == "Ec":       # an input enters a state with a 100 ms service (and a timer with the same deadline)
+        S = {a0: st(k0), a1: st(k1, invoke={"id": f"i{k1}0", "src": "svcFast", "onDone": {"target": a0, "actions": [f"od:{k1}:0"]}},
+                                after={"100": {"actions": [f"af:{k1}:0"]}})}
+        S[a0]["on"]["E"] = {"target": a1, "actions": [f"t:{k0}:E"]}
+        S[a1]["on"]["E"] = {"target": a1, "reenter": True, "actions": [f"t:{k1}:E"]}
+    elif kind == "Xs":       # a timer whose transition spends 100 ms in an exit action (the run loop is busy meanwhile)
+        S = {a0: st(k0, after={"100": {"target": a1, "actions": [f"af:{k0}:0"]}}), a1: st(k1, **back)}
+        S[a0]["exit"] = ["async:sleep:100"] + S[a0]["exit"]
+    else:
+        raise ValueError(kind)
+    return {"initial": a0, "entry": [f"en:{rn}"], "exit": [f"ex:{rn}"], "states": S, "on": {}}
+
+
+INST_KINDS = ["Tcyc", "T2", "Tnp", "Tnc", "Scyc", "Sbad", "Ep", "Ec", "Xs"]
+INST_TIMER_KINDS = ["Tcyc", "T2", "Xs"]
+INST_TIMES = [100, 150, 200]
+
+
+def instants(tier, kinds):
+    """every pair of region kinds side by side in one parallel machine (everything happens on the 100 ms grid, so the two
+    regions' expiries / completions / task starts coincide), under every agenda of <= 1 (quick) / <= 2 (thorough) inputs
+    from {E, X (a 100 ms action of the root), stop} at 100 / 150 / 200 ms"""
+    n = 1 if tier == "quick" else 2
+    evs = ["E", "X", "STOP"]
+    cases = []
+    times_pool = INST_TIMES if tier == "quick" else INST_TIMES + [300]
+    for i, ka in enumerate(kinds):
+        for kb in kinds[i:]:
+            m = {"id": "m", "type": "parallel", "states": {"a": _inst_region("a", ka), "b": _inst_region("b", kb)},
+                 "on": {"X": {"actions": ["async:sleep:100", "t:root:X"]}}}
+            for k in range(0, n + 1):
+                for times in itertools.combinations(times_pool, k):
+                    for es in itertools.product(evs, repeat=k):
+                        if "STOP" in es[:-1]:
+                            continue
+                        agenda = [[t, "stop"] if e == "STOP" else [t, "send", e] for t, e in zip(times, es)]
+                        # (a `stop` in the instant in which a slow action ends races with the macrostep in flight: not this family)
+                        if any(e == "STOP" for e in es) and ("X" in es or "Xs" in (ka, kb)):
+                            continue
+                        horizon = (times[-1] if times else 0) + 1000 + 37      # off the grid: nothing happens at the end of the run
+                        cases.append({"id": f"inst-{ka}-{kb}-{len(cases)}", "machine": m, "guards": {},
+                                      "logic": {"delays": dict(DELAYS), "services": copy.deepcopy(INST_SERVICES)},
+                                      "agenda": agenda + [[horizon - 300, "obs"]], "horizon": horizon, "profile": "instants"})
+    return cases
+
+
+def _instants_check(prop, tier, kinds, what):
+    return _result(what, *_fixed_check(instants(tier, kinds), "async", 300), exhaustive=True)
+
+
+def c08_instants(tier, seed):
+    return _instants_check("C08", tier, INST_TIMER_KINDS,
+                           f"SAME-INSTANT timers: every pair of {INST_TIMER_KINDS} as parallel regions on one 100 ms grid x ALL agendas of <= {1 if tier == 'quick' else 2} "
+                           f"inputs from E/X(slow)/stop at {INST_TIMES if tier == 'quick' else INST_TIMES + [300]} ms, async")
+
+
+def c09_instants(tier, seed):
+    return _instants_check("C09", tier, INST_KINDS,
+                           f"SAME-INSTANT wake-ups: every pair of {INST_KINDS} as parallel regions on one 100 ms grid (expiries, completions, "
+                           f"task starts, ends of slow actions coincide) x ALL agendas of <= {1 if tier == 'quick' else 2} inputs from E/X(slow)/stop at {INST_TIMES if tier == 'quick' else INST_TIMES + [300]} ms, async")
+
+
+# composite states with their own tasks, entered in every way (directed) -----------------------------------------------
+DEEP_ENTRIES = ["OPEN", "JA", "JR", "JH", "JHR", "JG"]      # own id | child absolute | child relative | history abs | rel | grandchild
+DEEP_INSIDE = ["IN", "INR", "SELF", "SELFR", "BACK", "UP"]
+DEEP_TIMES = [50, 200, 350, 500, 650]
+
+
+def _deep_machine(kind, tasks):
+    """`idle` and a composite state `work` (kind: compound | nested | parallel) that owns `tasks` itself. `work` is entered by
+    its own id (OPEN), through a child named directly from outside — absolute (JA) / relative (JR) spelling —, through its
+    history child (JH / JHR), through a grandchild (JG: two composite states on the explicit entry path); from inside it is
+    re-entered through deep targets without / with `reenter` (IN / INR), through its own id (SELF / SELFR), or a child of it
+    is (BACK, UP)."""
+    def st(key, **kw):
+        d = {"entry": [f"en:{key}"], "exit": [f"ex:{key}"], "on": {}}
+        d.update(kw)
+        return d
+    deep = "work.review.r2" if kind != "compound" else "work.review"
+    idle = st("idle")
+    idle["on"] = {"OPEN": {"target": "work", "actions": ["t:idle:OPEN"]},
+                  "JA": {"target": "#m.work.review", "actions": ["t:idle:JA"]},
+                  "JR": {"target": "work.review", "actions": ["t:idle:JR"]},
+                  "JG": {"target": "#m." + deep, "actions": ["t:idle:JG"]}}
+    work = st("work", **copy.deepcopy(tasks))
+    work["on"] = {"CLOSE": {"target": "idle", "actions": ["t:work:CLOSE"]}}
+    draft = st("work_draft")
+    review = st("work_review")
+    if kind == "compound":
+        idle["on"]["JH"] = {"target": "#m.work.hist", "actions": ["t:idle:JH"]}
+        idle["on"]["JHR"] = {"target": "work.hist", "actions": ["t:idle:JHR"]}
+        draft["on"] = {"IN": {"target": "#m.work.review", "actions": ["t:work_draft:IN"]},
+                       "INR": {"target": "#m.work.review", "reenter": True, "actions": ["t:work_draft:INR"]},
+                       "SELF": {"target": "#m.work", "actions": ["t:work_draft:SELF"]},
+                       "SELFR": {"target": "#m.work", "reenter": True, "actions": ["t:work_draft:SELFR"]}}
+        review["on"] = {"BACK": {"target": "draft", "actions": ["t:work_review:BACK"]},
+                        "UP": {"target": "#m.work.draft", "reenter": True, "actions": ["t:work_review:UP"]}}
+        work["initial"] = "draft"
+        work["states"] = {"draft": draft, "review": review, "hist": {"type": "history", "history": "shallow"}}
+    else:
+        # `review` is compound itself (and owns a timer): a target `work.review.r2` puts TWO composite states on the entry path
+        review["initial"] = "r1"
+        review["after"] = {"D1": {"actions": ["af:work_review:0"]}}
+        review["states"] = {"r1": st("work_review_r1"), "r2": st("work_review_r2"), "rh": {"type": "history", "history": "deep"}}
+        review["states"]["r1"]["on"] = {"IN": {"target": "#m.work.review.r2", "actions": ["t:work_review_r1:IN"]},
+                                        "INR": {"target": "#m.work.review.r2", "reenter": True, "actions": ["t:work_review_r1:INR"]}}
+        review["states"]["r2"]["on"] = {"BACK": {"target": "r1", "actions": ["t:work_review_r2:BACK"]},
+                                        "UP": {"target": "#m.work.review", "reenter": True, "actions": ["t:work_review_r2:UP"]}}
+        review["on"] = {"SELF": {"target": "#m.work", "actions": ["t:work_review:SELF"]},
+                        "SELFR": {"target": "#m.work", "reenter": True, "actions": ["t:work_review:SELFR"]}}
+        idle["on"]["JH"] = {"target": "#m.work.review.rh", "actions": ["t:idle:JH"]}
+        idle["on"]["JHR"] = {"target": "work.review.rh", "actions": ["t:idle:JHR"]}
+        if kind == "nested":
+            draft["on"] = {"IN": {"target": "#m.work.review.r2", "actions": ["t:work_draft:IN"]},
+                           "INR": {"target": "#m.work.review", "reenter": True, "actions": ["t:work_draft:INR"]}}
+            work["initial"] = "draft"
+            work["states"] = {"draft": draft, "review": review}
+        else:   # parallel: `draft` and `review` are regions; a deep target into one region enters the other by default
+            draft["initial"] = "d1"
+            draft["states"] = {"d1": st("work_draft_d1"), "d2": st("work_draft_d2")}
+            draft["states"]["d1"]["on"] = {"E": {"target": "d2", "actions": ["t:work_draft_d1:E"]}}
+            work["type"] = "parallel"
+            work["states"] = {"draft": draft, "review": review}
+    return {"id": "m", "initial": "idle", "states": {"idle": idle, "work": work}}
+
+
+DEEP_TASKS8 = {     # C08: the composite state's own timers
+    "t100": {"after": {"100": {"actions": ["af:work:0"]}}},
+    "tnamed": {"after": {"D1": {"actions": ["af:work:0"]}, "200": {"target": "idle", "actions": ["af:work:1"]}}},
+}
+DEEP_TASKS9 = {     # C09: its own services (+ a timer)
+    "plainOk": {"invoke": {"id": "iwork0", "src": "plainOk", "onDone": {"actions": ["od:work:0"]}}, "after": {"100": {"actions": ["af:work:0"]}}},
+    "plainBad": {"invoke": {"id": "iwork0", "src": "plainBad", "onDone": {"actions": ["od:work:0"]}}},                      # fails, no onError
+    "plainBadH": {"invoke": {"id": "iwork0", "src": "plainBad", "onDone": {"actions": ["od:work:0"]}, "onError": {"actions": ["oe:work:0"]}}},
+    "two": {"invoke": [{"id": "iwork0", "src": "plainOk", "onDone": {"actions": ["od:work:0"]}},
+                       {"id": "iwork1", "src": "plainBad", "onDone": {"actions": ["od:work:1"]}, "onError": {"target": "idle", "actions": ["oe:work:1"]}}]},
+    "coro": {"invoke": {"id": "iwork0", "src": "svcFast", "onDone": {"actions": ["od:work:0"]}}, "after": {"100": {"actions": ["af:work:0"]}}},
+    "coroBad": {"invoke": {"id": "iwork0", "src": "svcBadFast", "onDone": {"actions": ["od:work:0"]}}},                    # fails, no onError
+}
+
+
+def deep_cases(tier, tasks, flavor):
+    """every (kind of composite state) x (its own tasks) x agenda: one way in; a way in, then something inside; a way in,
+    something inside, CLOSE, a way in again (so that history children have something to restore); thorough: two things inside"""
+    cases = []
+    kinds = ["compound", "nested", "parallel"]
+    for kind in kinds:
+        for tname, tk in tasks.items():
+            if flavor == "sync" and tname.startswith("coro"):
+                continue
+            m = _deep_machine(kind, tk)
+            if flavor == "sync":
+                m = _syncify(m)
+            seqs = [(e,) for e in DEEP_ENTRIES]
+            seqs += [(e, i) for e in DEEP_ENTRIES for i in DEEP_INSIDE]
+            ins = DEEP_INSIDE if tier != "quick" else ["IN", "SELFR", "UP"]
+            seqs += [(e, i, "CLOSE", e2) for e in (DEEP_ENTRIES if tier != "quick" else ["OPEN", "JG"]) for i in ins
+                     for e2 in (DEEP_ENTRIES if tier != "quick" else ["JA", "JR", "JH", "JG"])]
+            if tier != "quick":
+                seqs += [(e, i, j) for e in DEEP_ENTRIES for i in DEEP_INSIDE for j in DEEP_INSIDE]
+            for sq in seqs:
+                agenda = [[t, "send", e] for t, e in zip(DEEP_TIMES, sq)]
+                horizon = agenda[-1][0] + 1000 + 37
+                cases.append({"id": f"deep-{kind}-{tname}-{flavor}-{len(cases)}", "machine": m, "guards": {},
+                              "logic": {"delays": dict(DELAYS), "services": copy.deepcopy(INST_SERVICES)},
+                              "agenda": agenda + [[horizon - 300, "obs"]], "horizon": horizon, "profile": "deepfix"})
+    return cases
+
+
+def _fixed_check(cases, flavor, cut):
+    """model vs code + both monitors on a list of fixed cases; returns (evaluations, nontrivial, ties, fails, samples, histogram)"""
+    open_f = _open_findings("C08") + _open_findings("C09")
+    ires = run_impl_many(flavor, cases)
+    mres = run_model_many(flavor, cases)
+    ties, fails, samples = [], [], []
+    hist = collections.Counter()
+    nontrivial = 0
+    for c, (ist, iout), (mst, mout) in zip(cases, ires, mres):
+        small = {k: c[k] for k in ("id", "machine", "guards", "logic", "agenda", "horizon")}
+        if ist != "ok" or mst != "ok":
+            ties.append({"case": small, "flavor": flavor, "diff": {"impl": [ist, iout if ist != "ok" else ""], "model": [mst, mout if mst != "ok" else ""]}})
+            continue
+        d = diff_run(iout, mout, c["horizon"] - cut)
+        if d is not None:
+            ties.append({"case": small, "flavor": flavor, "diff": d})
+        recs = [r for _t, r in iout["log"]]
+        # instants at which at least two independent things happened (two sends by tasks, or a send by a task and a task start)
+        per_t = collections.Counter(t for t, r in iout["log"] if r.startswith(("send:after.", "send:done.", "send:error.", "svc-start:")))
+        hist["instants_with_coinciding_wakeups"] += sum(1 for v in per_t.values() if v >= 2)
+        hist["service_starts"] += sum(1 for r in recs if r.startswith("svc-start:"))
+        hist["service_completions"] += sum(1 for r in recs if r.startswith("svc-end:"))
+        hist["after_transitions_fired"] += sum(1 for r in recs if r.startswith("af:"))
+        hist["entries_of_work"] += sum(1 for r in recs if r.startswith("en:work@"))
+        if c.get("profile") == "deepfix":
+            nontrivial += 1 if any(r.startswith(("af:work:", "svc-start:iwork")) for r in recs) else 0
+        elif any(v >= 2 for v in per_t.values()):
+            nontrivial += 1
+        for mon in (monitor_c08, monitor_c09):
+            for p in mon(c, iout):
+                who = explained_by(p, c, flavor, open_f)
+                if who:
+                    hist["known:" + who + ":" + p["kind"]] += 1
+                else:
+                    fails.append({"kind": p["kind"], "detail": p["detail"], "problem": p, "case": small, "flavor": flavor})
+        if len(samples) < 2 and d is None and len(json.dumps(small)) < 2600:
+            samples.append({"case": small, "flavor": flavor, "records": iout["log"][:14], "final": iout["C"]})
+    return len(cases), nontrivial, ties, fails, samples, hist
+
+
+def _deep_check(tier, tasks, what):
+    tot = [0, 0, [], [], [], collections.Counter()]
+    for flavor in ("sync", "async"):
+        ev, nt, ties, fails, samples, hist = _fixed_check(deep_cases(tier, tasks, flavor), flavor, 300)
+        tot[0] += ev; tot[1] += nt; tot[2] += ties; tot[3] += fails; tot[4] += samples[:1]; tot[5].update(hist)
+    return _result(what, *tot, exhaustive=True)
+
+
+def c08_deep(tier, seed):
+    return _deep_check(tier, DEEP_TASKS8,
+                       "COMPOSITE states (compound / nested / parallel) that own `after` timers, entered by own id, through a child or grandchild named "
+                       "directly from outside (absolute + relative), through a history child, re-entered from inside via deep targets with/without reenter; "
+                       "ALL agendas (way in | way in, inside | way in, inside, CLOSE, way in), both engines")
+
+
+def c09_deep(tier, seed):
+    return _deep_check(tier, DEEP_TASKS9,
+                       "COMPOSITE states (compound / nested / parallel) that own invoked services (plain, coroutine, failing without onError, two at once), entered "
+                       "by own id, through a child or grandchild named directly from outside (absolute + relative), through a history child, re-entered from "
+                       "inside via deep targets with/without reenter; ALL agendas (way in | way in, inside | way in, inside, CLOSE, way in), both engines")
 
 
 # ------------------------------------------------------------------------------------------- replay of a finding
